@@ -14,6 +14,8 @@ from flat import _import_transitions
 
 # item kinds (shared with coq/Model/TimerIO.v)
 K_EXITED, K_ENTERED, K_FIRED, K_CEXIT, K_CENTER, K_CTIMEOUT, K_ONEXC, K_ESCAPE, K_RES, K_USER = range(10)
+K_SETTIMEOUT = 10
+NO_MODEL = 1000      # group of the items that belong to no model (asyncio canonical form)
 R_FALSE, R_TRUE, R_MACHINE, R_ATTRIBUTE, R_OTHER = 0, 1, 2, 3, 9
 
 
@@ -435,6 +437,11 @@ def run_threaded(case):
                     res = [R_TRUE if ctx.models[m].trigger('e%d' % e) else R_FALSE]
                 except Exception as ex:  # noqa
                     res = [_res_code(tr, ex)]
+            elif op[0] == 2:
+                # reconfiguration at run time through the public attribute of the state object
+                machine.get_state('s%d' % op[1]).timeout = op[2]
+                ctx.log.append([K_SETTIMEOUT, op[1], op[2], clock.now])
+                res = []
             else:
                 clock.advance(op[1])
                 res = []
@@ -470,6 +477,10 @@ def run_async(case):
                         res = [R_TRUE if await ctx.models[m].trigger('e%d' % e) else R_FALSE]
                     except Exception as ex:  # noqa
                         res = [_res_code(tr, ex)]
+                elif op[0] == 2:
+                    machine.get_state('s%d' % op[1]).timeout = op[2]
+                    ctx.log.append([K_SETTIMEOUT, op[1], op[2], loop.now()])
+                    res = []
                 else:
                     await loop.advance(op[1])
                     res = []
@@ -517,7 +528,9 @@ RULE = ('cases = @add_state_features(Timeout) on Machine / HierarchicalMachine (
         'without transition, denser from the initial state) x 0-2 machine on_exception recorders x 1-3 models x histories '
         'of 2-16 operations, `model.trigger(event)` or `advance(dt)` with dt drawn around the timeouts (0, 1, timeout-1, '
         'timeout, timeout+1, long), half of them with an extra pair of events of one model at the same instant with '
-        'nothing in between (re-enter and leave before the cancelled asyncio timer task has run); re-trigger chains that '
+        'nothing in between (re-enter and leave before the cancelled asyncio timer task has run); 45% of the cases reassign '
+        '`machine.get_state(s).timeout = v` (v = 0 in half of them, else 1-4) of states that were given on_timeout, at random '
+        'places and right after an event with another event of the same model behind it; re-trigger chains that '
         'do not die out (state-only pre-simulation, then the model\'s fuel) lose their triggers; every 11th case has a '
         'state with timeout > 0 and no on_timeout (construction must raise AttributeError).  Threads: '
         'transitions.extensions.states.Timer replaced from outside by a virtual timer; asyncio: virtual-time event loop '
@@ -542,7 +555,7 @@ ASSUMPTIONS = ['threading.Timer and asyncio.sleep call back at their deadline (A
                'triggers on its own model and then no other callback of that list raises (AsyncMachine would cancel the '
                'concurrent transition: C08)',
                'the initial state is assigned, not entered: no timeout runs for it (mirrored, documented behaviour)']
-THEOREMS = ['C17_once_on_time', 'C17_nonvacuous', 'C17_guard_needed', 'C17_invariant', 'C17_never_if_left', 'C17_restart',
+THEOREMS = ['C17_once_on_time', 'C17_nonvacuous', 'C17_reconfigured', 'C17_guard_needed', 'C17_invariant', 'C17_never_if_left', 'C17_restart',
             'C17_internal', 'C17_per_model', 'C17_validation', 'C17_async_shield', 'C17_async_exception']
 
 
@@ -632,14 +645,39 @@ def gen(rng, i, tier):
         for s in states:
             for cb in s['on_timeout']:
                 cb['act'] = None
+    given = [s['id'] for s in states if s['given']]
+    if given and not malformed and rng.random() < 0.45:
+        # reconfiguration at run time: state.timeout = v (0 switches it off) at random places, and once right
+        # after an event (a model may just have entered the state) followed by another event of that model
+        for _ in range(rng.choice([1, 1, 2, 3])):
+            hist.insert(rng.randrange(len(hist) + 1), [2, rng.choice(given), rng.choice([0, 0, 0, 1, 2, 3, 4])])
+        evs = [i for i, op in enumerate(hist) if op[0] == 0]
+        if evs:
+            i = rng.choice(evs)
+            hist[i + 1:i + 1] = [[2, rng.choice(given), rng.choice([0, 0, 1, 3])], [1, rng.choice([0, 1])],
+                                 [0, hist[i][1], rng.randrange(ne)]]
     if rng.random() < 0.5:
         # re-enter and leave again at the same instant: a pair of events of one model with nothing in between
         k = rng.randrange(len(hist) + 1)
         m = rng.randrange(nm)
         hist[k:k] = [[0, m, rng.randrange(ne)], [0, m, rng.randrange(ne)]]
+    if is_async:
+        hist = _settle_before_reassign(hist)
     return dict(variant='async' if is_async else 'thread', cls=cls, queued=queued, states=states,
                 trans=trans, ignore=rng.random() < 0.3, onexc=[100 + j for j in range(rng.choice([0, 0, 1, 2]))],
                 nmodels=nm, init=init, history=hist)
+
+
+def _settle_before_reassign(hist):
+    """asyncio: the timer task reads state.timeout when it first RUNS, one turn of the loop after the entry (see
+    probes/C17-async-lazy-period.py); a reassignment is therefore only issued after the loop has had a turn: an
+    advance(0) is put in front of it unless an advance is already there"""
+    out = []
+    for op in hist:
+        if op[0] == 2 and not (out and out[-1][0] == 1):
+            out.append([1, 0])
+        out.append(op)
+    return out
 
 
 def _enc_states(case):
@@ -677,6 +715,8 @@ def in_envelope(case):
         return exit_guard(case)
     if not exit_guard(case):
         return False
+    if case['history'] != _settle_before_reassign(case['history']):
+        return False
     for s in case['states']:
         if any(len([cb for cb in s[k] if cb['act'] is not None]) > 1 for k in ('enter', 'exit')):
             return False
@@ -690,6 +730,8 @@ def in_envelope(case):
 
 # ------------------------------------------------------------------ canonical form
 def _item_model(it):
+    if it[0] == K_SETTIMEOUT:
+        return NO_MODEL
     return it[1] if it[0] in (K_EXITED, K_ENTERED, K_FIRED, K_RES, K_USER) else it[2]
 
 
@@ -713,9 +755,9 @@ def canon(case, obs):
             for m in sorted({_item_model(it) for it in items}):
                 mine = [it for it in items if _item_model(it) == m]
                 cbs = [it[:3] + [0] + it[4:] if it[0] in (K_CEXIT, K_CENTER) else it
-                       for it in mine if not _handler_item(it) and it[0] not in (K_RES, K_EXITED, K_ENTERED)]
+                       for it in mine if not _handler_item(it) and it[0] not in (K_RES, K_EXITED, K_ENTERED, K_SETTIMEOUT)]
                 grouped.append([m, [it[:3] + [0] + it[4:] if it[0] == K_CTIMEOUT else it for it in mine if _handler_item(it)], cbs,
-                                [it for it in mine if it[0] in (K_EXITED, K_ENTERED, K_FIRED, K_USER)],
+                                [it for it in mine if it[0] in (K_EXITED, K_ENTERED, K_FIRED, K_USER, K_SETTIMEOUT)],
                                 [it for it in mine if it[0] == K_RES]])
             out.append([grouped, res, snap, clock])
         steps = out
@@ -878,7 +920,7 @@ def _markers(case, st):
         for _, _hi, _ti, mk, _rs in st[0]:
             out += mk
         return sorted(out, key=lambda it: it[-1])
-    return [it for it in st[0] if it[0] in (K_EXITED, K_ENTERED, K_FIRED, K_USER)]
+    return [it for it in st[0] if it[0] in (K_EXITED, K_ENTERED, K_FIRED, K_USER, K_SETTIMEOUT)]
 
 
 def nontrivial(case, obs):
@@ -923,6 +965,8 @@ def stats(case, obs, dist):
                 inc('handler_exception_left_thread')
             elif it[0] == K_ONEXC and it[3] != 0:
                 inc('handler_exception_routed_to_on_exception')
+            elif it[0] == K_SETTIMEOUT:
+                inc('timeout_reassigned_to_0' if it[2] == 0 else 'timeout_reassigned')
             elif it[0] == K_USER:
                 inc('user_events')
         if st[1] in ([R_MACHINE], [R_ATTRIBUTE]):
@@ -968,7 +1012,7 @@ def shrink_candidates(case):
         c = copy.deepcopy(case)
         c['onexc'] = c['onexc'][:-1]
         yield c
-    if case['nmodels'] > 1 and all(op[0] == 1 or op[1] < case['nmodels'] - 1 for op in h) and \
+    if case['nmodels'] > 1 and all(op[0] != 0 or op[1] < case['nmodels'] - 1 for op in h) and \
             all(cb['act'] is None or cb['act'][0] is None or cb['act'][0] < case['nmodels'] - 1
                 for s in case['states'] for cb in s['on_timeout']):
         c = copy.deepcopy(case)
